@@ -28,7 +28,7 @@ from .. import explore, machine, observe, rebuild, spec, sweeps
 from ..indep import foreign_json, foreign_xml, json_reader, xml_reader
 from . import c02
 
-INTERACTING = [("multi-member", "xsi-type-on-record"), ("subtype-element", "xsi-type-on-record"), ("xsi-type-on-record", "shadowed-root-prefix"), ("xsi-type-on-record", "default-ns"),
+INTERACTING = [("qname-text-padded", "default-ns"), ("multi-member", "xsi-type-on-record"), ("subtype-element", "xsi-type-on-record"), ("xsi-type-on-record", "shadowed-root-prefix"), ("xsi-type-on-record", "default-ns"),
                ("subtype-element", "shadowed-root-prefix"), ("nested-xmlns", "default-ns"),
                ("record-array", "multi-member"), ("wrap-formal", "multi-member"), ("prefix-bundle-only", "default-ns")]
 PREFIXES = {"http://a/": "ex", "http://b/": "exb", "http://c/": "cc", "http://bn/": "bn", "http://a/b/": "ab"}
